@@ -60,6 +60,9 @@ AT_FORMS = {
 MK_FORMS = ["mk:readonly", "mk:strided", "mk:list"]
 TOL32 = 1e-3  # float32 letters (DESIGN 2.6)
 
+# refusal kinds the masking / geometry code distinguishes (each is a self-loop letter on the live mesh)
+REFUSALS = ["vmask-size", "vmask-no-triangle", "tmask-size", "tmask-none", "normals-2d"]
+
 RIGID = ["translate", "rotate", "rotate+translate", "half-turn+translate"]
 SCALES = ["0.25", "3", "generic"]
 
@@ -450,12 +453,14 @@ class C17(Check):
         return (st["model"].key(), obs_key(observe(st["mesh"])))
 
     def is_query(self, op):
-        return op[0] in ("geom", "rigid", "scale")
+        return op[0] in ("geom", "rigid", "scale", "refuse")
 
     # ------------------------------------------------------------------------------------------ alphabet
     def ops(self, st, level):
         m = st["model"]
-        out = [("geom",)] + [("rigid", r) for r in RIGID] + [("scale", s) for s in SCALES]
+        # refused calls come first: every later letter of this state then runs on a live mesh that has seen them
+        out = [("refuse", kind) for kind in REFUSALS if kind != "normals-2d" or m.d == 2]
+        out += [("geom",)] + [("rigid", r) for r in RIGID] + [("scale", s) for s in SCALES]
         if level >= 1 and (m.n > DEPTH2_MAX_POINTS or len(m.tris) > DEPTH2_MAX_TRIS):
             return out
         n, k = m.n, len(m.tris)
@@ -520,6 +525,8 @@ class C17(Check):
             return self._apply_mask(st, op, verify)
         if not verify:
             return []
+        if kind == "refuse":
+            return self._refuse(st, op[1])
         if kind == "geom":
             return self._geom(st)
         if kind == "rigid":
@@ -527,6 +534,97 @@ class C17(Check):
         if kind == "scale":
             return self._scale(st, op[1])
         raise ValueError(op)
+
+    # ---- refused calls
+    def _refused_calls(self, model, kind):
+        """[(variant name, method name, argument)] of one refusal kind on a mesh - plain data from the reference"""
+        n, k = model.n, len(model.tris)
+        out = []
+        if kind == "vmask-size":
+            for name, ln in (("one-short", n - 1), ("one-long", n + 1), ("empty", 0), ("n_tris", k)):
+                if ln != n and ln >= 0:
+                    out.append((name, "from_mask", np.ones(ln, dtype=bool)))
+        elif kind == "vmask-no-triangle":
+            cands = [("all-false", np.zeros(n, dtype=bool))]
+            one = np.zeros(n, dtype=bool)
+            one[model.tris[0][0]] = True
+            cands.append(("one-vertex", one))
+            two = np.zeros(n, dtype=bool)
+            two[list(model.tris[0][:2])] = True
+            cands.append(("two-vertices-of-a-triangle", two))
+            # a maximal set without a whole triangle: drop the first still-whole triangle's last vertex, greedily
+            big = np.ones(n, dtype=bool)
+            for t in model.tris:
+                if all(big[v] for v in t):
+                    big[t[2]] = False
+            cands.append(("all-but-one-vertex-per-triangle", big))
+            seen = set()
+            for name, m in cands:
+                if any(all(m[v] for v in t) for t in model.tris) or m.tobytes() in seen:
+                    continue
+                seen.add(m.tobytes())
+                out.append((name, "from_mask", m))
+        elif kind == "tmask-size":
+            for name, ln in (("one-short", k - 1), ("one-long", k + 1)):
+                out.append((name, "from_tri_mask", np.ones(ln, dtype=bool)))
+        elif kind == "tmask-none":
+            out.append(("all-false", "from_tri_mask", np.zeros(k, dtype=bool)))
+        elif kind == "normals-2d":
+            out += [("tri_normals", "tri_normals", None), ("vertex_normals", "vertex_normals", None)]
+        else:
+            raise ValueError(kind)
+        return out
+
+    def _refuse(self, st, kind):
+        """(a) the call raises, (b) receiver and argument are observably unchanged, (c) the retry is refused in the
+        same way, (d) a valid mask on the same live mesh still answers like the reference (the geometry letters
+        follow on the same live mesh)."""
+        mesh, model = st["mesh"], st["model"]
+        where = "refused-%s/%s" % (kind, model.cls)
+        fails = []
+        for name, method, arg in self._refused_calls(model, kind):
+            before = observe(mesh)
+            arg0 = None if arg is None else arg.copy()
+            outcome = []
+            for attempt in (0, 1):
+                try:
+                    r = getattr(mesh, method)() if arg is None else getattr(mesh, method)(arg)
+                    outcome.append(("returned", type(r).__name__))
+                except Exception as e:  # noqa - the refusal under test
+                    outcome.append((type(e).__name__, str(e)))
+                d = obs_diff(before, observe(mesh))
+                if d is not None:
+                    fails.append(Failure(where, "receiver-changed-by-refused-call", "%s(%s) [%s, attempt %d] -> %s; receiver: %s" % (method, None if arg0 is None else arg0.astype(int).tolist(), name, attempt + 1, outcome[-1], d)))
+                    break
+                if arg is not None and not np.array_equal(arg, arg0):
+                    fails.append(Failure(where, "argument-changed-by-refused-call", "%s [%s]" % (method, name)))
+                    break
+            if fails:
+                break
+            if outcome[0][0] == "returned":
+                fails.append(Failure(where, "not-refused", "%s(%s) [%s] returned a %s" % (method, None if arg0 is None else arg0.astype(int).tolist(), name, outcome[0][1])))
+                break
+            if kind in ("vmask-size", "normals-2d") and outcome[0][0] != "ValueError":
+                fails.append(Failure(where, "exception-type", "%s [%s] raised %s, the code documents ValueError" % (method, name, outcome[0])))
+                break
+            if outcome[0] != outcome[1]:
+                fails.append(Failure(where, "retry-differs", "%s [%s]: first %s, then %s" % (method, name, outcome[0], outcome[1])))
+                break
+            self.note("refuse:%s:%s" % (kind, outcome[0][0]))
+        if fails:
+            return fails
+        # (d) a valid call on the very same live mesh
+        keep_all = np.ones(len(model.tris), dtype=bool)
+        vmask = np.array([v in model.used() for v in range(model.n)], dtype=bool)
+        exp, kept_tris, _ = _ref_mask(model, vmask)
+        try:
+            res = mesh.from_tri_mask(keep_all)
+        except Exception as e:  # noqa
+            return [Failure(where, "valid-call-after-refusal-raised", "from_tri_mask(all true): %s: %s" % (type(e).__name__, e))]
+        f = self._compare(where, res, exp, model, kept_tris, st)
+        for x in f:
+            x.clause = "valid-call-after-refusal/" + x.clause
+        return f
 
     # ---- masking
     def _apply_mask(self, st, op, verify):
@@ -931,6 +1029,11 @@ class C17(Check):
         forms = sorted(set(r[5] for r in self._form_roots()))
         need += ["form:%s:geom" % f for f in forms] + ["form:%s:mask" % f for f in forms]
         need += ["mask:structured-family", "form:big-mesh-small-index-dtype"]
+        need += ["refuse:vmask-size:ValueError", "refuse:normals-2d:ValueError"]
+        for kind in ("vmask-no-triangle", "tmask-size", "tmask-none"):
+            if not any(k.startswith("refuse:%s:" % kind) for k in notes):
+                out_missing = "refusal kind %s never produced a refusal" % kind
+                need.append(out_missing)
         out = ["outcome %s never produced" % n for n in need if not notes.get(n)]
         if self.tier == "thorough" and stats.per_level.get(2, 0) == 0:
             out.append("no mask was applied to the result of a mask")
@@ -963,7 +1066,8 @@ class C17(Check):
             "Delaunay letters: a fixed 6 / 7 point layout whose coordinates are jittered by the seed and kept only while the triangulation stays the Delaunay triangulation of the jittered points (structure never depends on the seed)",
             "argument forms: only forms the unchanged constructors / mask methods accept are letters (excluded: float / uint64 triangle lists, integer points, list / integer masks, tuple triangle masks, list colours, list points for ColouredTriMesh, index dtypes whose maximum equals the largest vertex index); float32 points: geometry tolerance %.0e" % TOL32,
             "meshes with more than %d points or %d triangles get the structured mask family (all, all but one element, one triangle / one closed vertex neighbourhood alone, index prefixes / suffixes, residue classes); above %d points the per-element letters address every 8th element" % (BIG_POINTS, BIG_TRIS, HUGE_POINTS),
-            "masks that keep no whole triangle are outside the quantifier and are not enumerated",
+            "masks that keep no whole triangle are outside the quantifier of the masking clauses; they, wrong-length vertex / triangle masks, all-false triangle masks and normals of 2-D meshes are REFUSED-CALL letters (first letters of every state): must raise (ValueError where the code raises it explicitly), leave receiver and argument observably unchanged, be refused identically on retry, and a valid mask on the same live mesh must still match the reference; geometry letters follow on the same live mesh",
+            "not a refusal letter: tri_areas of meshes that are neither 2-D nor 3-D (outside the quantifier), constructor refusals (no live receiver)",
             "[interp] all-true vertex mask on a mesh with pre-existing orphan vertices: the identical copy (orphans kept) and the orphan-free mesh are both accepted; every partial mask must drop them",
             "[interp] a triangle mask keeps every triangle all of whose vertices survive, i.e. also unselected triangles spanned by vertices of selected ones",
             "[interp] vertex normals must be unit only for vertices of at least one triangle whose incident normals do not cancel; the orientation (sign) of normals is not part of the property",
